@@ -33,6 +33,8 @@ def decode(data: bytes) -> dict:
                 body.append(["wait"] if d.p(0.55) else ["yield", d.i(1, 3)])
             prog["steps"].append({"op": "consumer", "body": body, "end": d.pick(["ret", "ret", "raise"]), "n": d.i(1, 2),
                                   "swallow": d.p(0.1)})
+        elif r < 46:
+            prog["steps"].append({"op": "agen", "how": d.pick(["aclose", "aclose", "exhaust", "throw"])})
         elif r < 60:
             prog["steps"].append({"op": "cancel", "k": d.i(0, 5), "which": d.pick(["waiting", "inbody", "any"])})
         elif r < 68:
@@ -129,6 +131,52 @@ class QRun:
         except ValueError as e:
             self.fail("mark/task_done-called-too-often", str(e))
 
+    async def agen_consumer(self, rec: dict, how: str) -> None:
+        """'async with queue as item' inside an async generator that is closed / thrown into while suspended in the block."""
+        q = self.q
+        run = self
+
+        async def gen():
+            async with q as item:
+                rec["state"] = "inbody"
+                run.entries += 1
+                run.items_seen.append(item)
+                try:
+                    yield item
+                finally:
+                    run.exits += 1
+                    rec["state"] = "exited"
+                    run.zero_check()
+
+        rec["state"] = "waiting"
+        g = gen()
+        try:
+            await g.__anext__()
+            self.labels.add("agen:" + how)
+            if how == "aclose":
+                await g.aclose()                      # GeneratorExit at the yield inside the block
+            elif how == "throw":
+                try:
+                    await g.athrow(BodyError())
+                except (BodyError, StopAsyncIteration):
+                    pass
+            else:
+                try:
+                    await g.__anext__()
+                except StopAsyncIteration:
+                    pass
+        except asyncio.CancelledError:
+            if rec["state"] == "waiting" and not self.teardown:
+                self.labels.add("cancel:while-waiting")
+                rec["state"] = "cancelled"
+            try:
+                await g.aclose()
+            except BaseException:
+                pass
+            raise
+        except ValueError as e:
+            self.fail("mark/task_done-called-too-often", str(e))
+
     async def joiner(self, rec: dict) -> None:
         rec["started"] = True
         rec["zero_seen"] = self.puts == self.exits
@@ -190,6 +238,10 @@ class QRun:
                     rec: Dict[str, Any] = {"state": "new"}
                     rec["task"] = asyncio.ensure_future(self.consumer(rec, st_))
                     self.consumers.append(rec)
+            elif op == "agen":
+                rec = {"state": "new"}
+                rec["task"] = asyncio.ensure_future(self.agen_consumer(rec, st_["how"]))
+                self.consumers.append(rec)
             elif op == "cancel":
                 which = st_["which"]
                 c = [x for x in self.consumers if not x["task"].done() and (which == "any" or x["state"] == which)]
